@@ -646,3 +646,20 @@ Definition entries (i : lark_inst) : list mentry :=
   map MRule (pc_rules (fe_parser_conf (li_parser i))) ++
   map MRule (table_rules (fe_parser (li_parser i))) ++
   map MRule (li_rules i).
+
+(* ------------------------------------------------------------------ the flag test of lexer._create_unless *)
+(* [strtok.pattern.flags <= retok.pattern.flags]: subset on frozensets, lexicographic order on lists *)
+Fixpoint lex_le (a b : list string) : bool :=
+  match a, b with
+  | [], _ => true
+  | _ :: _, [] => false
+  | x :: a', y :: b' => if String.eqb x y then lex_le a' b' else String.ltb x y
+  end.
+Definition flags_le (a b : flagsv) : option bool :=
+  match a, b with
+  | FSet x, FSet y => Some (forallb (fun s => mem_str s y) x)
+  | FList x, FList y => Some (lex_le x y)
+  | _, _ => None      (* TypeError *)
+  end.
+(* deserialisation without the Pattern._deserialize hook (lark before the repair): flags stay a list *)
+Definition flags_as_list (f : flagsv) : flagsv := FList (flags_elems f).
